@@ -392,6 +392,17 @@ def py_binop(op, a, b, ctx):
             return SSetZ(a.kind, z)
         if isinstance(a, PSet) and isinstance(b, SSetZ):
             return py_binop(op, b, a, ctx)
+    if op == "-" and isinstance(a, PSet) and isinstance(b, PSet):
+        # set difference of two small sets with possibly symbolic elements: membership of each element is decided (forks)
+        out = []
+        for x in a.items:
+            e = _disj([py_eq(x, y) for y in b.items])
+            present = e if isinstance(e, bool) else (ctx.decide(bool_z(e), "set-diff-member") if ctx is not None else None)
+            if present is None:
+                raise Unsupported("set difference with symbolic elements needs a context")
+            if not present:
+                out.append(x)
+        return PSet(out)
     if op == "-" and isinstance(a, SSetZ) and isinstance(b, SSetZ):
         return SSetZ(a.kind, z3.SetDifference(a.z, b.z))
     if op == "&" and isinstance(a, SSetZ) and isinstance(b, SSetZ):
